@@ -204,7 +204,7 @@ def run_world(rng, res, idx):
 
 
 def plan(tier, seed):
-    n = tier_value(tier, 1500, 20000)
+    n = tier_value(tier, 1500, 80000)
     shards = tier_value(tier, 8, 14)
     per = n // shards
     return [dict(first=i * per, count=per, budget_s=tier_value(tier, 45, 420)) for i in range(shards)]
